@@ -1,6 +1,7 @@
 (* C11 - source text is read with the documented precedence, literals and comments. *)
 From HclV Require Import Base Expr Machine Graph Build Lexer Parser LexParseSpec LexParseProofs Generated TriviaSpec TriviaProofs.
 From HclV Require Import LexRoundTripSpec LexRoundTripProofs.
+From HclV Require ParserSoundSpec ParserSoundProofs LexLocSpec LexLocProofs.
 Open Scope list_scope.
 Open Scope N_scope.
 
@@ -191,3 +192,23 @@ Print Assumptions C11_reprinting_keeps_the_meaning.
 Theorem C11_separation_condition_is_exact : stmt_may_follow_exact.
 Proof. exact may_follow_exact_holds. Qed.
 Print Assumptions C11_separation_condition_is_exact.
+
+(* ---- the parser computes exactly the grammar (ParserSoundSpec.v / ParserSoundProofs.v) --------- *)
+(* soundness: whatever the parser returns is a rendering of it (it never invents or drops structure) *)
+Theorem C11_parser_sound : ParserSoundSpec.stmt_parser_sound.
+Proof. exact ParserSoundProofs.parser_sound_holds. Qed.
+Print Assumptions C11_parser_sound.
+(* expressions: parse succeeds with e on exactly the renderings of e *)
+Theorem C11_parser_accepts_exactly_the_renderings : ParserSoundSpec.stmt_parser_characterised.
+Proof. exact ParserSoundProofs.parser_characterised_holds. Qed.
+Print Assumptions C11_parser_accepts_exactly_the_renderings.
+(* whole programs: parse = the declarative statement grammar transcribed from parser.lalrpop
+   (error-recovery productions excluded), both directions *)
+Theorem C11_program_parser_accepts_exactly_the_grammar : ParserSoundSpec.stmt_parse_characterised.
+Proof. exact ParserSoundProofs.parse_characterised_holds. Qed.
+Print Assumptions C11_program_parser_accepts_exactly_the_grammar.
+
+(* ---- every text is tokens-with-trivia or has one of ten lexical faults (LexLocSpec.v) ---------- *)
+Theorem C11_every_text_is_characterised : LexLocSpec.stmt_lex_characterised.
+Proof. exact LexLocProofs.lex_characterised_holds. Qed.
+Print Assumptions C11_every_text_is_characterised.
